@@ -11,7 +11,6 @@ from __future__ import annotations
 import builtins
 import itertools
 import operator
-import os
 import warnings
 
 import numpy as np
@@ -34,24 +33,28 @@ EXPLANATION = (
     "Bounded symbolic execution of the shape / chunk / block-alignment arithmetic behind elementwise operations. "
     "(1) broadcast_shapes on <= 3 shapes of ndim <= 2 with symbolic dims: the result equals the NumPy broadcasting rule (an independent "
     "reference on the symbolic dims, itself compared with numpy.broadcast_shapes on every path model) and ValueError is raised exactly "
-    "when NumPy raises. (2) common_blockdim on <= 3 chunk tuples of <= 3 symbolic chunk sizes with equal sums: the output adds up to the "
-    "dimension and its set of chunk boundaries (cumulative sums) equals the union of the inputs' boundary sets. (3) unify_chunks run on "
+    "when NumPy raises. (2) common_blockdim on <= 3 chunk tuples of <= 3 symbolic chunk sizes with equal sums: the output is a non-empty tuple that adds up "
+    "to the dimension and its set of chunk boundaries (cumulative sums) equals the union of the inputs' boundary sets. (3) unify_chunks run on "
     "recording Array stand-ins with broadcast-compatible shapes (size-1 and 0-length axes included): for every index the common chunks add up "
-    "to the NumPy broadcast dimension with boundary set the union of the full-size operands' boundaries, and every returned operand keeps its "
-    "shape and has, per axis, exactly the common chunks (full-size axis) or the single chunk (1,) (broadcast axis). (4) broadcast_chunks: "
+    "to the NumPy broadcast dimension with boundary set the union of the full-size operands' boundaries, every returned operand keeps its "
+    "shape, has per axis either as many blocks as the common chunks or one block, and the block sizes that blockwise will combine (block i, or "
+    "block 0 of a single-block operand) are NumPy-broadcast-compatible and give exactly the declared common chunk sizes. (4) broadcast_chunks: "
     "result per axis is the one non-(1,) chunk tuple, ValueError exactly when two operands disagree. (5) The real Blockwise layer "
     "(_make_dims, _get_coord_mapping, _make_blockwise_graph, _cull_dependencies) for elementwise index patterns ('ij' with 'j', 'i', 'ji', "
     "literals) and symbolic numblocks: one task per output block, whose k-th argument is input block (out coordinate, or 0 where the input "
     "has a single block) in the input's own axis order; cull dependencies equal exactly those keys; ValueError exactly when two inputs have "
     "different non-1 block counts on one index. (6) broadcast_to: chunks add up to the target shape, every block reads the aligned source "
-    "block, ValueError exactly when NumPy refuses. Path trees exhausted, per-path native replay, and an e2e witness per path model through "
+    "block, ValueError exactly when NumPy refuses. (7) the obligations of (2) and (3) again with empty (0-size) chunks inside the axes, "
+    "including size-1 axes chunked (1, 0) / (0, 1). Path trees exhausted, per-path native replay, and an e2e witness per path model through "
     "da.from_array: x+y(+z), comparisons, ufuncs, da.where, where=/out=, astype, clip, broadcast_to, broadcast_arrays against NumPy for "
     "values, dtype, shape, and chunks/block shapes adding up.")
 ASSUMPTIONS = [
     "dim and chunk sizes are never NaN here (unknown chunk sizes are outside the claim): np.isnan on symbolic ints answers False",
     "np.max of a tuple of Python ints is Python's max (shimmed so that the dims stay symbolic)",
     "the recording Array stand-in's rechunk() declares the chunks that the real rechunk would declare (dask's own normalize_chunks is called, sums validated "
-    "as _validate_rechunk does); the data movement of rechunk itself is property C23 and is exercised here only by the e2e witnesses",
+    "as _validate_rechunk does, all-empty arrays returned unchanged as rechunk does); the data movement of rechunk itself is property C23 and is exercised "
+    "here only by the e2e witnesses",
+    "out= arrays have the broadcast shape of the inputs (handle_out raises ValueError otherwise: NumPy would broadcast the inputs into a larger out)",
 ]
 STUBS = ["dask.array.core.np -> shim: isnan(SInt / tuple of ints) = False, max(tuple of ints) = Python max",
          "dask.array.core.{int, math} shims (normalize_chunks called by the stand-in's rechunk)",
@@ -61,22 +64,27 @@ ENUM = ["number of operands, ndim per operand, number of chunks per axis, which 
         "chunk tuples entering common_blockdim / broadcast_dimensions / broadcast_chunks are hashed (set members) there: the solver enumerates every "
         "feasible chunk tuple inside the bounds (dims stay symbolic only in broadcast_shapes and in the size comparisons before hashing)",
         "numblocks of the blockwise layer (range() / set membership) and every input of broadcast_to (real Array construction)"]
-OUTSIDE = ["ufunc values and dtype promotion (NumPy C code) beyond the e2e witnesses", "unknown (NaN) chunk sizes / shapes", "more than 3 operands, more than 2 dimensions",
+OUTSIDE = ["ufunc values and dtype promotion (NumPy C code) beyond the e2e witnesses", "unknown (NaN) chunk sizes / shapes", "more than 3 operands, more than 2 dimensions (3 for the blockwise layer)",
            "contracted (dummy) indices, new_axes, adjust_chunks, concatenate of dask.array.blockwise (tensordot / map_blocks: C35)",
-           "the data movement of rechunk (C23)", "dask.array.blockwise.blockwise, elemwise, handle_out themselves need real Arrays and NumPy metas: e2e witnesses only"]
+           "the data movement of rechunk (C23)", "dask.array.blockwise.blockwise, elemwise, handle_out themselves need real Arrays and NumPy metas: e2e witnesses only",
+           "out= larger than the broadcast shape of the inputs (dask refuses with ValueError, NumPy broadcasts)"]
 BOUNDS = {
     "quick": dict(broadcast_shapes="1..3 shapes, ndim 0..2, dims symbolic in [0,4]", common_blockdim="2..3 tuples of 1..3 chunks, sizes symbolic in [1,4] (single chunk [0,4]), dim <= 4",
-                  unify="operand ndims (1,1) (2,1) (1,2) (2,2) (1,1,1) (2,2,1); dims in [0,4]; <= 3 chunks per axis (2-d x 2-d: <= 2)", broadcast_chunks="2 operands ndim <= 2, 3 operands 1-d",
-                  blockwise="<= 3 inputs, ndim <= 2, numblocks symbolic in [1,3]", broadcast_to="source ndim <= 2, <= 2 chunks per axis, dims in [0,3], <= 1 new axis"),
-    "thorough": dict(broadcast_shapes="1..3 shapes, ndim 0..3, dims symbolic in [0,9]", common_blockdim="2..3 tuples of 1..4 chunks, sizes in [1,5] and, separately, [0,3] (empty chunks), dim <= 6",
-                     unify="as quick plus (2,2) with <= 3 chunks, (2,2,2) with <= 2 chunks, dims in [0,5]", broadcast_chunks="<= 3 operands ndim <= 2",
-                     blockwise="<= 3 inputs, ndim <= 3, numblocks in [1,4]", broadcast_to="source ndim <= 2, <= 3 chunks per axis, dims in [0,4], <= 2 new axes"),
+                  unify="operand ndims (1,1) dim<=4 <=3 chunks; (2,1) dim<=4 <=2 chunks; (1,2) (2,2) dim<=3 <=2 chunks; (1,1,1) dim<=3 <=3 chunks; (2,2,1) dim<=3 1 chunk",
+                  broadcast_chunks="(1,1) dim<=3 <=3 chunks; (2,1) dim<=2 <=2 chunks; (1,1,1) dim<=3 <=2 chunks; one operand axis optionally chunked differently",
+                  blockwise="<= 3 inputs, ndim <= 2, numblocks symbolic in [1,3]", broadcast_to="1-d source <=2 chunks dims in [0,3] <=1 new axis with/without chunks=; 2-d source dims in [0,2] no new axis",
+                  empty_chunks="common_blockdim 2 tuples of <=2 chunks in [0,2], dim<=2; unify (1,1) <=2 chunks in [0,2], dim<=2, size-1 axes (1,) (1,0) (0,1)"),
+    "thorough": dict(broadcast_shapes="1..2 shapes ndim 0..3, 3 shapes ndim 0..2, dims symbolic in [0,9]", common_blockdim="2 tuples of <=4 chunks / 3 tuples of <=3 chunks, sizes in [1,5], dim <= 6",
+                     unify="(1,1) (1,1,1) dim<=5 <=3 chunks; (2,1) (1,2) (2,2) dim<=4 <=3 chunks; (2,2,1) (2,1,2) dim<=3 <=2 chunks; (2,2,2) dim<=2 <=2 chunks", broadcast_chunks="<= 3 operands ndim <= 2, dim<=4",
+                     blockwise="<= 3 inputs, ndim <= 3, numblocks in [1,4] (3 for 3-d)", broadcast_to="1-d source <=3 chunks dims in [0,4] <=2 new axes; 2-d source <=3 chunks dims in [0,3] <=1 new axis; 2-d dims in [0,2] <=2 new axes",
+                     empty_chunks="common_blockdim 2 tuples <=3 chunks in [0,3] dim<=6, 3 tuples <=3 chunks in [0,2] dim<=3; unify (1,1) <=3 chunks dim<=4, (2,1) <=2 chunks dim<=3"),
 }
 
-
-# Empty (0-size) chunks *inside* an axis are outside the default claim: three genuine dask defects live there (see OUTSIDE); the
-# obligations that reach them are added to the thorough tier only with VERIF_C19_EMPTY=1.
-EMPTY_CHUNKS = bool(os.environ.get("VERIF_C19_EMPTY"))
+# NOTE (finding on the unchanged tree): operand axes of total length <= 1 that are cut into several chunks -- e.g. ((1, 0),) as produced by
+# x[x < 1].compute_chunk_sizes() -- break unify_chunks / common_blockdim: (y + 1) computes two elements for a one-element y, a size-1 axis
+# chunked (1, 0) cannot be broadcast (ValueError), a 0-length axis chunked (0, 0) makes common_blockdim return () (ValueError) or
+# broadcast_arrays raise.  The empty-chunk obligations declare the model variable deg_axis (1 iff such an axis is present) so that the
+# region can be named by a known-finding predicate ("deg_axis == 1").
 
 
 def functions():
@@ -329,7 +337,7 @@ def _axis_chunks(e, tag, maxn, CH, zero=False):
 
 def declare_ops(e, ndims, maxn, DMAX, CH, zero=False):
     """broadcast-compatible operands; axes are numbered from the right.  returns (chunks per operand, dims per axis).
-    A broadcast (size-1) axis always has the single chunk (1,); zero=True allows empty chunks inside the other axes."""
+    A broadcast (size-1) axis has the single chunk (1,); zero=True allows empty chunks inside every axis (also (1, 0) / (0, 1))."""
     nd = builtins.max(ndims)
     D = [e.int(f"D{k}", 0, DMAX) for k in range(nd)]
     per = [[None] * m for m in ndims]
@@ -339,7 +347,7 @@ def declare_ops(e, ndims, maxn, DMAX, CH, zero=False):
         for o in have:
             if e.flag(f"b{o}_{k}"):
                 e.assume(lambda: D[k] != 1)      # (a size-1 axis of a size-1 dimension is the non-broadcast case)
-                per[o][k] = (1,)
+                per[o][k] = e.pick(f"bz{o}_{k}", [(1,), (1, 0), (0, 1)]) if zero else (1,)
             else:
                 ch = _axis_chunks(e, f"{o}_{k}", maxn, CH, zero)
                 e.assume(lambda: _tot(ch) == D[k])
@@ -347,8 +355,17 @@ def declare_ops(e, ndims, maxn, DMAX, CH, zero=False):
                 nfull += 1
         if nfull == 0:
             e.assume(False)
+    if zero:
+        _declare_deg(e, [(per[o][k], _tot(per[o][k])) for o, m in enumerate(ndims) for k in range(m)])
     ops = [tuple(per[o][k] for k in reversed(range(m))) for o, m in enumerate(ndims)]
     return ops, D
+
+
+def _declare_deg(e, axes):
+    """model variable deg_axis = 1 iff some operand axis of total length <= 1 is cut into several chunks (e.g. (1, 0), (0, 0)): the
+    region of the empty-chunk defects, so that a known-finding predicate can name it"""
+    deg = e.int("deg_axis", 0, 1)
+    e.assume(lambda: (deg == 1) == _or((d <= 1) for ch, d in axes if len(ch) >= 2))
 
 
 def ops_from_model(model, ndims, maxn, DMAX, CH, zero=False):
@@ -406,6 +423,8 @@ def mk_common(k, maxn, DMAX, CH, zero=False):
         e.assume(lambda: D <= DMAX)
         for b in bds[1:]:
             e.assume(lambda: _tot(b) == D)
+        if zero:
+            _declare_deg(e, [(b, D) for b in bds])
         return (bds,)
 
     def run(e, bds):
@@ -518,10 +537,19 @@ def mk_unify(ndims, maxn, DMAX, CH, every=7, zero=False):
                 d = arrs[o].shape[ax]
                 e.check(lambda: _tot(got) == d, "an operand changed its shape in unify_chunks")
 
-                def aligned():
-                    # blocks line up one to one, or the operand has the single one-element block that blockwise + NumPy broadcast
-                    return ((d == bdim(k)) & _teq(got, cc)) | _is_one(got)
-                e.check(aligned, "after unify_chunks an operand axis is neither chunked like the common chunks nor a single size-1 broadcast chunk")
+            # blockwise reads block i of an operand with several blocks and block 0 of a single-block operand; NumPy broadcasts the block
+            # sizes: along every index the blocks must be broadcast-compatible and give exactly the declared common chunk sizes
+            gots = [out[o].chunks[ndims[o] - 1 - k] for o in have]
+            e.check(builtins.all(len(g) in (1, len(cc)) for g in gots), "after unify_chunks an operand has a number of blocks that is neither 1 nor that of the common chunks")
+
+            def blocks_ok():
+                r = True
+                for i in range(len(cc)):
+                    shp, bad = _np_rule(e, [((g[i] if len(g) == len(cc) else g[0]),) for g in gots])
+                    r = r & _not(bad) & (shp[0] == cc[i])
+                return r
+            e.check(blocks_ok, "after unify_chunks the operands' blocks do not line up with the common chunks that the result declares "
+                               "(block sizes incompatible, or computed block sizes differ from the declared chunks)")
         return ([chunkss[k] for k in range(nd)], [a.chunks for a in out])
 
     def e2e(model):
@@ -833,17 +861,19 @@ def obligations(tier):
         obs.append(mk_blockwise("ij,ij,j", 3, ints=True))
         obs.append(mk_broadcast_to(1, 2, 3, 1, True))
         obs.append(mk_broadcast_to(2, 2, 2, 0, False))
+        # empty chunks inside an axis (the property names them)
+        obs.append(mk_common(2, 2, 2, 2, zero=True))
+        obs.append(mk_unify((1, 1), 2, 2, 2, 1, zero=True))
     else:
         obs.append(mk_bshape(1, 3, 9))
         obs.append(mk_bshape(2, 3, 9))
         obs.append(mk_bshape(3, 2, 9))
         obs.append(mk_common(2, 4, 6, 5))
         obs.append(mk_common(3, 3, 6, 5))
-        if EMPTY_CHUNKS:
-            obs.append(mk_common(2, 3, 6, 3, zero=True))
-            obs.append(mk_common(3, 3, 3, 2, zero=True))
-            obs.append(mk_unify((1, 1), 3, 4, 3, 3, zero=True))
-            obs.append(mk_unify((2, 1), 2, 3, 3, 7, zero=True))
+        obs.append(mk_common(2, 3, 6, 3, zero=True))
+        obs.append(mk_common(3, 3, 3, 2, zero=True))
+        obs.append(mk_unify((1, 1), 3, 4, 3, 3, zero=True))
+        obs.append(mk_unify((2, 1), 2, 3, 3, 7, zero=True))
         for ndims, maxn, dmax, ev in (((1, 1), 3, 5, 1), ((2, 1), 3, 4, 7), ((1, 2), 3, 4, 7), ((2, 2), 3, 4, 11), ((1, 1, 1), 3, 5, 7), ((2, 2, 1), 2, 3, 11),
                                       ((2, 1, 2), 2, 3, 11), ((2, 2, 2), 2, 2, 11)):
             obs.append(mk_unify(ndims, maxn, dmax, 5, ev))
